@@ -11,8 +11,11 @@ from dsim import core
 from dsim.base import Check
 
 FIELDS = ["dmr_id", "callsign", "serial", "address_in", "address_out", "address_nat", "snmp_enabled", "nat_enabled"]
-DYN = ["k1", "k2", "p2p_is_registered", "rx_freq"]
-ADDRS = [["10.0.0.1", 50000], ["10.0.0.1", 50002], ["10.0.0.2", 50000], ["10.0.0.2", 50002]]
+# dynamic keys: two of them are spelled like built-in members -- attr() keeps them in the dynamic namespace, patch() of the same name
+# goes to the member; the two must never be confused
+DYN = ["k1", "k2", "p2p_is_registered", "rx_freq", "serial", "callsign"]
+# the last two are what asyncio hands to datagram_received for IPv6 peers: (host, port, flowinfo, scope_id)
+ADDRS = [["10.0.0.1", 50000], ["10.0.0.1", 50002], ["10.0.0.2", 50000], ["10.0.0.2", 50002], ["fe80::1", 50000, 0, 0], ["fe80::1", 50000, 0, 3]]
 DEFAULTS = {"dmr_id": None, "callsign": "", "serial": "", "address_out": ("", 0), "address_nat": ("", 0),
             "snmp_enabled": True, "nat_enabled": False}
 
@@ -73,7 +76,7 @@ def rnd_patch(r):
             f = r.choice(FIELDS)
             d[f] = rnd_value(f, r)
         else:
-            d[r.choice(DYN)] = r.choice([1, 2, "x", True, 0, False, 0.5, ""])
+            d[r.choice(DYN[:4])] = r.choice([1, 2, "x", True, 0, False, 0.5, ""])
     return d
 
 
@@ -138,7 +141,7 @@ class C20(Check):
         s = streams["sched"]
         nclients = k.choice([1, 2, 2, 3])
         n = k.choice([1, 2, 3, 5, 8, 13, 21, 34, 55, 89, 144, 233, 300])
-        naddr = k.choice([1, 2, 4])
+        naddr = k.choice([1, 2, 4, 6, 6])
         weights = {o: k.choice([0, 1, 2, 4]) for o in
                    ["match_incoming", "save", "patch", "attr_set", "attr_get", "delete_attr", "match_attr", "match_ip", "match_uuid",
                     "held_patch", "held_attr", "len_all"]}
